@@ -5,6 +5,7 @@ Lemmas/Inspect.lean and Props/C14.lean reason about.  One line each; a change of
 the generated definition and breaks the lemma (and with it every theorem behind it).
 -/
 import ElfioVerif.Model.Modinfo
+import ElfioVerif.Model.Versym
 namespace ElfioVerif
 open Gen
 namespace ModTie
@@ -33,4 +34,11 @@ theorem splitRecord_eq (info : Bytes) : Modinfo.splitRecord info =
   have h0 : mod_field_start.toNat = 0 := by decide
   simp only [Modinfo.splitRecord, h0, List.drop_zero, mod_field_len]
 end ModTie
+
+namespace VerTie
+theorem vr_i_init_eq : vr_i_init = 0 := rfl
+theorem vd_i_init_eq : vd_i_init = 0 := rfl
+theorem vr_i_incr_eq (i : BitVec 32) : vr_i_incr i = i + 1 := rfl
+theorem vd_i_incr_eq (i : BitVec 32) : vd_i_incr i = i + 1 := rfl
+end VerTie
 end ElfioVerif
